@@ -12,7 +12,7 @@ def classify_crash(cr):
 
 SPEC = {
     'id': 'C15',
-    'lean_modules': ['AITB.Props.C15', 'AITB.Props.C15Gen', 'AITB.Props.C15Top', 'AITB.Props.C15Mdp', 'AITB.Props.C15Cex', 'AITB.Props.C15Flat', 'AITB.Props.C15Clean', 'AITB.Props.C15Facts'],
+    'lean_modules': ['AITB.Props.C15', 'AITB.Props.C15Gen', 'AITB.Props.C15Top', 'AITB.Props.C15Mdp', 'AITB.Props.C15Cex', 'AITB.Props.C15Flat', 'AITB.Props.C15Clean', 'AITB.Props.C15Facts', 'AITB.Props.C15Bp', 'AITB.Props.C15Obj', 'AITB.Props.C15Deleg', 'AITB.Props.C15Q'],
     'theorems': [
         'AITB.FLP.weak_duality_sound',
         'AITB.FLP.optimalPair_sound',
@@ -64,6 +64,21 @@ SPEC = {
         'AITB.FLP.flpGen_clean',
         'AITB.FLP.mdpGen_clean',
         'AITB.FLP.gen_facts_hold',
+        'AITB.FLP.bpModel_is_expectation',
+        'AITB.FLP.bpModel_WF',
+        'AITB.FLP.mdpLP_equiv_bellman_bp',
+        'AITB.FLP.mdpLP_sound_bellman_bp',
+        'AITB.FLP.q_is_backup',
+        'AITB.FLP.mdpLP_same_optimum_bp',
+        'AITB.FLP.basis_mean',
+        'AITB.FLP.statedObj_eq_flatObj',
+        'AITB.FLP.statedObj_is_uniform_average',
+        'AITB.FLP.flpErr_deleg',
+        'AITB.FLP.factoredLP_equiv_all',
+        'AITB.FLP.toBM_get',
+        'AITB.FLP.backProject_BMWF',
+        'AITB.FLP.zip_foldl_zsum',
+        'AITB.FLP.qModel_is_backup',
     ],
     'harness': 'harness/c15.cpp',
     # the calls LpSolveWrapper.cpp makes into lp_solve are recorded at link time (the library is not modified)
@@ -82,7 +97,7 @@ SPEC = {
             'and the LP handed to lp_solve equal to the Lean-generated LP (rows in order, columns, objective, bounds). '
             'non-trivial = more than one joint state; distinct by protocol line',
     'modelled': ['src/Factored/MDP/Algorithms/Utils/FactoredLP.cpp: operator() (both setup loops, column numbering, constant-basis spreading), all five Global callbacks',
-                 'src/Factored/MDP/Algorithms/LinearProgramming.cpp: solveLP (three setup loops with the zero skip, objective), all five Global callbacks; operator() only through its outputs (Q checked)',
+                 'src/Factored/MDP/Algorithms/LinearProgramming.cpp: solveLP (three setup loops with the zero skip, objective), all five Global callbacks; operator(): g = backProject, g *= discount*v, plusEqual(g, R) (qModel, diffed basis by basis)',
                  'include/AIToolbox/Factored/Utils/GenericVariableElimination.hpp: operator(), removeFactor in the branch without mergeFactors (append, sum every match)',
                  'include/AIToolbox/Factored/Utils/FactorGraph.hpp: bestVariableToRemove / getFactor / erase as key-set bookkeeping (model shared with C13)',
                  'src/Factored/Utils/BayesianNetwork.cpp: DDNGraph::getId, DDN::getTransitionProbability (flat P), backProject (executable model, diffed; = expectation decided per case)',
